@@ -489,7 +489,7 @@ func (r *renderer) stmt(indent int, s Stmt) {
 			if i == 0 {
 				r.add(indent, s, toks...)
 			} else {
-				r.add(indent, nil, toks...)
+				r.add(indent, &v.Conds[i], toks...) // (line of the i-th 再如: keyed by its condition slot)
 			}
 			r.block(indent+1, v.Blocks[i])
 		}
@@ -540,7 +540,7 @@ func (r *renderer) stmt(indent int, s Stmt) {
 			} else {
 				toks = append(toks, sym("="))
 			}
-			r.add(indent+1, nil, append(toks, r.expr(v.Props[i].Init, 0)...)...)
+			r.add(indent+1, &v.Props[i], append(toks, r.expr(v.Props[i].Init, 0)...)...)
 		}
 		for i := range v.Methods {
 			m := &v.Methods[i]
